@@ -6,6 +6,7 @@ import hashlib
 import io
 import os
 import socket
+import sys
 import threading
 import traceback
 
@@ -36,16 +37,44 @@ def _drain(sock_or_fd, chunks: list, is_fd: bool) -> None:  # noqa: ANN001
         return
 
 
+class _CCalls:
+    """Records the names of C-level methods called on one object while active (sys.setprofile c_call events), other than the allowed ones."""
+
+    def __init__(self, obj: object, allowed: tuple[str, ...]) -> None:
+        self.obj, self.allowed, self.foreign, self._on = obj, allowed, [], False
+
+    def _hook(self, frame, event, arg):  # noqa: ANN001, ANN202
+        if self._on and event == "c_call" and getattr(arg, "__self__", None) is self.obj and arg.__name__ not in self.allowed and len(self.foreign) < 20:
+            self.foreign.append(arg.__name__)
+
+    def pause(self) -> None:
+        self._on = False
+
+    def resume(self) -> None:
+        self._on = True
+
+    def __enter__(self) -> "_CCalls":
+        self._prev = sys.getprofile()
+        self._on = True
+        sys.setprofile(self._hook)
+        return self
+
+    def __exit__(self, *a: object) -> None:
+        sys.setprofile(self._prev)
+        self._on = False
+
+
 def _write_all(kind: str, writers_and_values: list, prefix: bytes, suffix: bytes, loop) -> tuple[bytes, list, int]:  # noqa: ANN001
     """Write prefix, every (writer, value) in order, suffix to one sink of the kind.
     Returns (bytes that arrived, foreign events, write calls observed or -1)."""
     if kind == "bytesio":
         buf = io.BytesIO()
         buf.write(prefix)
-        for w, v in writers_and_values:
-            w(buf, v)
+        with _CCalls(buf, allowed=("write",)) as spy:
+            for w, v in writers_and_values:
+                w(buf, v)
         buf.write(suffix)
-        return buf.getvalue(), [], -1
+        return buf.getvalue(), [("c-call", name) for name in spy.foreign], -1
     if kind == "write_only":
         sink = WriteOnlySink()
         sink.write(prefix)
@@ -140,12 +169,17 @@ def _read_all(kind: str, readers: list, data: bytes, skip: int, lengths: list[in
     positions: list | None = []
     events: list = []
     if kind == "bytesio":
+        # a plain, unsubclassed io.BytesIO (code may single it out with `type(buffer) is io.BytesIO`): what is called on it is observed
+        # through the interpreter's profile hook (C-level method calls on this very object)
         src = io.BytesIO(data)
         src.read(skip)
-        for r in readers:
-            values.append(r(src))
-            positions.append(src.tell())
-        return values, positions, events
+        with _CCalls(src, allowed=("read",)) as spy:
+            for r in readers:
+                values.append(r(src))
+                spy.pause()
+                positions.append(src.tell())
+                spy.resume()
+        return values, positions, [("c-call", name) for name in spy.foreign]
     if kind == "read_only":
         src = ReadOnlySource(data)
         src.read(skip)
@@ -380,7 +414,7 @@ def _history(res: Result, h: int, payloads: list, loop, pairs_seen: set, distinc
                     res.violation(f"source-position:{kind}",
                                   f"{kind} source: positions after each message {positions[:6]}.. differ from the encodings' boundaries {want_positions[:6]}..",
                                   dict(case, source=kind, stream=expected, positions=positions, expected_positions=want_positions))
-                if kind in ("read_only", "spy_bytesio") and events:
+                if kind in ("read_only", "spy_bytesio", "bytesio") and events:
                     res.violation(f"source-foreign-access:{events[0]}",
                                   f"decoder touched the source through something other than read(n>=0): {events[:5]}",
                                   dict(case, source=kind, events=events))
